@@ -19,10 +19,18 @@ type config struct {
 	fallback, recovery, checkPeriod time.Duration
 	cond                            string
 	badCode                         int
+	order                           int // index into optionOrders: the order in which the three duration options are passed to New
 }
 
+// optionOrders: every permutation of (FallbackDuration, RecoveryDuration, CheckPeriod).
+var optionOrders = [][3]int{{0, 1, 2}, {0, 2, 1}, {1, 0, 2}, {1, 2, 0}, {2, 0, 1}, {2, 1, 0}}
+
 func (c config) String() string {
-	return fmt.Sprintf("fallback=%v,recovery=%v,check=%v,cond=%s", c.fallback, c.recovery, c.checkPeriod, c.cond)
+	o := ""
+	if c.order != 0 {
+		o = fmt.Sprintf(",option-order=%v", optionOrders[c.order])
+	}
+	return fmt.Sprintf("fallback=%v,recovery=%v,check=%v,cond=%s%s", c.fallback, c.recovery, c.checkPeriod, c.cond, o)
 }
 
 type sys struct {
@@ -52,7 +60,9 @@ func newSys(cfg config) *sys {
 		}
 		w.WriteHeader(s.code)
 	})
-	cb, err := cbreaker.New(h, cfg.cond, cbreaker.FallbackDuration(cfg.fallback), cbreaker.RecoveryDuration(cfg.recovery), cbreaker.CheckPeriod(cfg.checkPeriod))
+	three := []cbreaker.Option{cbreaker.FallbackDuration(cfg.fallback), cbreaker.RecoveryDuration(cfg.recovery), cbreaker.CheckPeriod(cfg.checkPeriod)}
+	ord := optionOrders[cfg.order]
+	cb, err := cbreaker.New(h, cfg.cond, three[ord[0]], three[ord[1]], three[ord[2]])
 	if err != nil {
 		panic(err)
 	}
@@ -280,7 +290,7 @@ func model(cfg config, prop, tier string, depth int) *lib.Model[*sys] {
 				continue
 			}
 			rep.Violate(p[0], p[1]+" ["+cfg.String()+"]", map[string]any{"engine": "xstate", "part": "cb", "fallback_ns": int64(cfg.fallback), "recovery_ns": int64(cfg.recovery),
-				"check_ns": int64(cfg.checkPeriod), "cond": cfg.cond, "bad_code": cfg.badCode, "tier": tier, "ops": m.OpNames(hist), "observations": obs})
+				"check_ns": int64(cfg.checkPeriod), "option_order": cfg.order, "cond": cfg.cond, "bad_code": cfg.badCode, "tier": tier, "ops": m.OpNames(hist), "observations": obs})
 		}
 	}
 	return m
@@ -314,7 +324,7 @@ func configs(prop, tier string) []config {
 					if tier != "thorough" && (i+j+k+l)%2 == 1 {
 						continue // quick: half of the product, every value of every parameter still occurs
 					}
-					out = append(out, config{f, r, c, cd.c, cd.code})
+					out = append(out, config{f, r, c, cd.c, cd.code, 0})
 				}
 			}
 		}
@@ -348,6 +358,29 @@ func Run(tier string, sh lib.Shard, rep *lib.Report) {
 	} else {
 		rep.Require("trips_observed", "requests_shielded_while_tripped", "requests_passed_during_recovery", "returns_to_standby", "prepared_states_retripped_mid_recovery")
 	}
+	// The order in which options are passed can only matter through the breaker that New builds: all six orders
+	// are built, and one representative per DISTINCT built breaker (reflective dump) is explored - a reduction
+	// that merges only identical objects. On a tree where the order is irrelevant that is one exploration.
+	var expanded []config
+	for _, cfg := range cfgs {
+		seen := map[string]bool{}
+		for o := range optionOrders {
+			c2 := cfg
+			c2.order = o
+			probe := newSys(c2)
+			d := lib.Dumper{Now: clock.Now().UTC()}
+			k := d.Dump(probe.cb)
+			if !seen[k] {
+				seen[k] = true
+				expanded = append(expanded, c2)
+			}
+			rep.Count("option_orders_built")
+		}
+		if len(seen) > 1 {
+			rep.Count("configurations_where_option_order_changes_the_breaker")
+		}
+	}
+	cfgs = expanded
 	for _, cfg := range cfgs {
 		m := model(cfg, prop, tier, depth)
 		m.Shard, m.ShardLevel = sh, 3
@@ -407,7 +440,10 @@ func Run(tier string, sh lib.Shard, rep *lib.Report) {
 
 func Replay(rp map[string]any) (bool, string) {
 	cfg := config{time.Duration(int64(rp["fallback_ns"].(float64))), time.Duration(int64(rp["recovery_ns"].(float64))), time.Duration(int64(rp["check_ns"].(float64))),
-		rp["cond"].(string), int(rp["bad_code"].(float64))}
+		rp["cond"].(string), int(rp["bad_code"].(float64)), 0}
+	if o, ok := rp["option_order"].(float64); ok {
+		cfg.order = int(o)
+	}
 	prop, _ := rp["property"].(string)
 	tier, _ := rp["tier"].(string)
 	m := model(cfg, prop, tier, 0)
